@@ -622,6 +622,8 @@ func explainContent(typeURL string, got, want []byte) (string, string) {
 			m = &listenerv3.Listener{}
 		case "RouteConfiguration":
 			m = &routev3.RouteConfiguration{}
+		case "TypedExtensionConfig":
+			m = &core.TypedExtensionConfig{}
 		default:
 			return []string{fmt.Sprintf("<%d bytes>", len(b))}
 		}
